@@ -239,6 +239,24 @@ CLAIMED = {
                   "structural shape of the recalculation hooks",
         design="DESIGN.md §4 C17",
     ),
+    "C18": dict(
+        level="other",
+        text="Structural clauses of core-property round trip and validity: for all 15 properties the proxy getter and setter "
+             "use the same element accessor, that accessor's getter and setter name the same child, the child is a declared "
+             "ZeroOrOne whose tag is the Dublin-Core / OPC element for that property and a child of cp:coreProperties in "
+             "opc-coreProperties.xsd, and children are created through get_or_add only; str() then `len > 255` raises "
+             "ValueError before the element is created and the reader returns the text or ''; a non-datetime raises ValueError "
+             "before mutation; the written strftime pattern has a fixed width equal to the reader's slice bound, its date-time "
+             "part is one of the reader's templates and its suffix denotes UTC; unparseable timestamps read as None; "
+             "created/modified carry xsi:type=dcterms:W3CDTF; +hh:mm is subtracted and -hh:mm added on hours and minutes and "
+             "the offset pattern's width equals the length the reader tests; revision accepts only int >= 1 (ValueError "
+             "otherwise, before mutation) and reads back as an int. NOT decided: datetime arithmetic at the range ends, years "
+             "below 1000, equality after save and re-open.",
+        technique="static analysis: three-layer name-agreement table against the OPC schema, refusal-before-mutation ordering, "
+                  "format-string width and template-membership computation, regex width via re._parser, sign analysis of the "
+                  "offset conversion",
+        design="DESIGN.md §4 C18",
+    ),
     "C20": dict(
         level="other",
         text="Exhaustive finite-table comparison: every BaseXmlEnum member (alias groups by integer value; tokens distinct in "
@@ -261,7 +279,7 @@ NOT_APPLICABLE = {
     "C02": _NOT_BUILT, "C04": _NOT_BUILT,
     "C06": _NOT_BUILT, "C08": _NOT_BUILT, "C09": _NOT_BUILT,
     "C12": _NOT_BUILT, "C13": _NOT_BUILT,
-    "C17": _NOT_BUILT, "C18": _NOT_BUILT,
+    "C17": _NOT_BUILT,
     "C19": "part-name arithmetic is an equation between values of pure string functions (posixpath "
            "semantics) over all name pairs; no table, ordering or ownership fact in the source determines it; "
            "bounding it needs concrete or symbolic evaluation, a different technique family",
